@@ -18,6 +18,7 @@ MODULES = {
     "C07": "props_trace",
     "C10": "props_c10",
     "C16": "props_c16",
+    "C19": "props_c19",
 }
 
 
